@@ -177,8 +177,9 @@ class Inliner:
         self.sites: list[tuple[str, str]] = []
 
     # ------------------------------------------------------------------ eligibility
-    def callee_of(self, f, call):
-        """Func for a call of an eligible private helper, with the receiver expression (or None)"""
+    def callee_of(self, f, call, gen=False):
+        """Func for a call of an eligible private helper, with the receiver expression (or None); gen=True: the helper must be
+        a plain generator (statement-level `yield x` only, no return) instead of a plain function"""
         fn = call.func
         name = recv = cls = None
         if isinstance(fn, ast.Name):
@@ -214,8 +215,22 @@ class Inliner:
             return None
         if any(isinstance(x, ast.Starred) for x in call.args) or any(k.arg is None for k in call.keywords):
             return None
+        has_yield = False
         for n in _walk_no_nested(node):
-            if isinstance(n, (ast.Yield, ast.YieldFrom, ast.Await, ast.Global, ast.Nonlocal)):
+            if isinstance(n, (ast.YieldFrom, ast.Await, ast.Global, ast.Nonlocal)):
+                return None
+            if isinstance(n, ast.Yield):
+                has_yield = True
+                if not gen:
+                    return None
+            if gen and isinstance(n, ast.Return):
+                return None
+        if gen:
+            if not has_yield:
+                return None
+            stmt_yields = sum(1 for n in _walk_no_nested(node) if isinstance(n, ast.Expr) and isinstance(n.value, ast.Yield)
+                              and n.value.value is not None)
+            if stmt_yields != sum(1 for n in _walk_no_nested(node) if isinstance(n, ast.Yield)):
                 return None
         if g.fq in self.active or g.fq == f.fq:
             return None
@@ -280,7 +295,7 @@ class Inliner:
         if id(f.node) in self.done or depth > MAX_DEPTH or not isinstance(f.node, (ast.FunctionDef, ast.AsyncFunctionDef)):
             return
         self.done.add(id(f.node))
-        if not any(isinstance(n, ast.Call) and self.callee_of(f, n) for n in ast.walk(f.node)):
+        if not any(isinstance(n, ast.Call) and (self.callee_of(f, n) or self.callee_of(f, n, gen=True)) for n in ast.walk(f.node)):
             return
         self.active.add(f.fq)
         try:
@@ -338,6 +353,10 @@ class Inliner:
         if hasattr(ast, 'Match') and isinstance(s, ast.Match):
             for c in s.cases:
                 c.body = self.block(f, c.body, depth)
+        # 0. a private generator consumed item by item: `X.add_edges_from(_gen(..))`, `X.extend(_gen(..))`, `for t in _gen(..):`
+        res = self.generator_consumer(f, s, depth)
+        if res is not None:
+            return res
         # 1. the call is the whole value of a simple statement
         res = self.whole_value(f, s, depth)
         if res is not None:
@@ -372,6 +391,69 @@ class Inliner:
                         call.id, call.ctx, call.lineno, call.col_offset = tmp, ast.Load(), line, 0
                         call.end_lineno, call.end_col_offset = line, 0
         return hoisted + [s]
+
+    CONSUMERS = {'add_edges_from': ('add_edge', True), 'extend': ('append', False)}
+
+    def generator_consumer(self, f, s, depth):
+        """the body of a private generator with every `yield item` replaced by what the consumer does with the item"""
+        line = getattr(s, 'lineno', 0)
+        if isinstance(s, ast.Expr) and isinstance(s.value, ast.Call) and isinstance(s.value.func, ast.Attribute) \
+                and s.value.func.attr in self.CONSUMERS and len(s.value.args) == 1 and not s.value.keywords \
+                and isinstance(s.value.args[0], ast.Call):
+            call = s.value.args[0]
+            per_item, star = self.CONSUMERS[s.value.func.attr]
+            recv = s.value.func.value
+
+            def make(item):
+                if star and isinstance(item, ast.Tuple):
+                    args = list(item.elts)
+                elif star:
+                    args = [ast.Starred(value=item, ctx=ast.Load())]
+                else:
+                    args = [item]
+                return [ast.Expr(value=ast.Call(func=ast.Attribute(value=copy.deepcopy(recv), attr=per_item, ctx=ast.Load()),
+                                                args=args, keywords=[]))]
+        elif isinstance(s, ast.For) and isinstance(s.iter, ast.Call) and not s.orelse and not any(
+                isinstance(n, (ast.Break, ast.Continue, ast.Return)) for b in s.body for n in [b, *_walk_no_nested(b)]):
+            call = s.iter
+
+            def make(item):
+                return [ast.Assign(targets=[copy.deepcopy(s.target)], value=item, lineno=line)] + copy.deepcopy(s.body)
+        else:
+            return None
+        r = self.callee_of(f, call, gen=True)
+        if r is None:
+            return None
+        g, recv_, static, clsm = r
+        body = _body(g.node)
+        if not body or sum(1 for st in body for n in ast.walk(st) if isinstance(n, ast.stmt)) > MAX_STMTS:
+            return None
+        b = self.bind(g, call, recv_, static, clsm, _all_names(f.node))
+        if b is None:
+            return None
+        mapping, pre, renames = b
+        tr = _Subst(mapping, renames)
+        new = [tr.visit(copy.deepcopy(st)) for st in body]
+
+        def repl(stmts):
+            out = []
+            for st in stmts:
+                if isinstance(st, ast.Expr) and isinstance(st.value, ast.Yield):
+                    out.extend(make(st.value.value))
+                    continue
+                for fld in ('body', 'orelse', 'finalbody'):
+                    if isinstance(getattr(st, fld, None), list) and not isinstance(st, (ast.FunctionDef, ast.AsyncFunctionDef,
+                                                                                         ast.ClassDef)):
+                        setattr(st, fld, repl(getattr(st, fld)))
+                if isinstance(st, ast.Try):
+                    for h in st.handlers:
+                        h.body = repl(h.body)
+                out.append(st)
+            return out
+        res = pre + repl(new)
+        self.count += 1
+        self.sites.append((f.fq, g.fq))
+        return _setloc([ast.fix_missing_locations(x) for x in res], line, g.fq)
 
     def own_calls(self, root):
         """Call nodes of an expression in evaluation-ish order, not entering lambdas / comprehensions"""
